@@ -655,3 +655,78 @@ func TestVerifC09Record(t *testing.T) {
 		}
 	})
 }
+
+// TestVerifC09Sweep: the Gen_Framing behaviours keep message sizes small (TLC enumerates chunkings, not
+// sizes); this driver instantiates the simplest behaviour - a complete stream of two messages, then a
+// clean end - for every first-message size in a dense range plus the neighbourhoods of powers of two,
+// and runs it through the writer and every reader.  Decode of such a stream is Msg(1) Msg(2) EOF.
+func TestVerifC09Sweep(t *testing.T) {
+	out, err := verifutil.NewOut(verifutil.Env("VERIF_OUT", "sweep.ndjson"))
+	if err != nil {
+		t.Fatal(err)
+	}
+	defer out.Close()
+	dense := verifutil.EnvInt("VERIF_DENSE", 9000)
+	sizes := []int{}
+	for n := 0; n <= dense; n++ {
+		sizes = append(sizes, n)
+	}
+	for k := 13; k <= 21; k++ {
+		for d := -5; d <= 5; d++ {
+			if n := 1<<k + d; n > dense {
+				sizes = append(sizes, n)
+			}
+		}
+	}
+	var evals int64
+	verifutil.ParallelFor(len(sizes), runtime.NumCPU(), func(ix int) {
+		n := sizes[ix]
+		lens := []int{n, 3}
+		stream, bodies := c09Stream(lens)
+		one, two, n2 := 1, 2, 3
+		nn := n
+		exp := []c09Res{{K: "Msg", I: &one, N: &nn}, {K: "Msg", I: &two, N: &n2}, {K: "EOF"}}
+		s := &c09Scn{Lens: lens, Avail: len(stream), End: "eof", Limit: 16 * 1024 * 1024, Exp: exp, ExpNoLimit: exp}
+		var eb bytes.Buffer
+		for _, b := range bodies {
+			if err := writeDelimitedMessageRaw(&eb, b); err != nil {
+				out.Put(map[string]any{"variant": "enc", "scn": s, "obs": err.Error(), "repro": 3})
+			}
+		}
+		atomic.AddInt64(&evals, 1)
+		if !bytes.Equal(eb.Bytes(), stream) {
+			o, e := eb.Bytes(), stream
+			at := 0
+			for at < len(o) && at < len(e) && o[at] == e[at] {
+				at++
+			}
+			out.Put(map[string]any{"variant": "enc", "scn": s, "obs": fmt.Sprintf("%d bytes, first difference at %d", len(o), at),
+				"exp": fmt.Sprintf("%d bytes", len(e)), "repro": 3})
+		}
+		// the typed writer on the same message
+		var m conformancev1.ClientCompatResponse
+		if n != 1 && proto.Unmarshal(bodies[0], &m) == nil {
+			var tb bytes.Buffer
+			err := WriteDelimitedMessage(&tb, &m)
+			atomic.AddInt64(&evals, 1)
+			if err != nil || !bytes.Equal(tb.Bytes(), stream[:4+n]) {
+				out.Put(map[string]any{"variant": "encmsg", "scn": s, "obs": fmt.Sprintf("err=%v, %d bytes written", err, tb.Len()),
+					"exp": fmt.Sprintf("%d bytes", 4+n), "repro": 3})
+			}
+		}
+		variants := []string{"raw"}
+		if c09ProtoOK(exp) {
+			variants = append(variants, "msg", "dec")
+		}
+		for _, v := range variants {
+			for _, cyc := range [][]int{nil, {3, 4096}, {511, 1, 513}} {
+				run := c09Execute(v, s, stream, bodies, false, cyc)
+				atomic.AddInt64(&evals, 1)
+				if !c09Equal(run.Obs, exp) {
+					out.Put(c09Mismatch{Variant: v, Scn: s, Obs: run.Obs, Exp: exp, ScriptOK: true, Note: "size sweep", Repro: 3})
+				}
+			}
+		}
+	})
+	out.Put(map[string]any{"summary": true, "scenarios": len(sizes), "evaluations": evals})
+}
